@@ -242,6 +242,8 @@ def run(chk: common.Check):
     # parts written one after the other with NO record between them: the first part ends with its hetero group (after its own TER), the other
     # one with a terminal oxygen; the chain starts are still defined (C01)
     pairs.append(("1HPX", S("1HPX.pdb"), {"A": "A", "B": "B"}, "3SGB chain I", chain_i, {"I": "I"}, {"sep": None, "tag": " (no record between the parts)"}))
+    # two complete entries written one after the other: an END record (after the TER) between the parts
+    pairs.append(("1HPX", S("1HPX.pdb"), {"A": "A", "B": "B"}, "3SGB chain I", chain_i, {"I": "I"}, {"sep": "TER   \nEND", "tag": " (END record between the parts)"}))
     # a part that sits on the coordinate origin (1HPX as deposited) and a far part with side chains cut back to their group-defining atoms
     trunc, tdesc = structures.truncated_side_chains(S("3SGB-subset.pdb"))
     pairs.append(("1HPX", S("1HPX.pdb"), {"A": "A", "B": "B"}, "3SGB-subset with truncated side chains", trunc, {"E": "E", "I": "I"}))
@@ -262,7 +264,7 @@ def run(chk: common.Check):
         except Exception as ex:   # noqa: BLE001
             found.append(("crash-alone", f"{na}: {type(ex).__name__}: {ex}", {"case": na}))
             continue
-        for gap in (gaps if ("4DFR" not in na and "truncated" not in nb) else gaps[1:2]):   # one gap for the (slower) 4DFR pairs
+        for gap in (gaps if ("4DFR" not in na and "truncated" not in nb and "between the parts" not in nb) else gaps[1:2]):   # one gap for the (slower) 4DFR pairs
             axis = rng.randrange(3)
             lb, sh = separated(la, lb0, gap, axis)
             try:
